@@ -353,6 +353,23 @@ func main() {
 	}
 	stFmt := fp("stats/stats_reporter.go", 7, []string{"  Database file:      %s\n", "  Database records:   %d\n", "  Log file:           %s\n",
 		"  Log records:        %d\n", "  Today:              %s\n", "  First record:       %s (%d days ago)\n", "  Last record:        %s (%d days ago)\n"})
+	// summary template: the literal text after the date, between value and name in both kinds of rows, and the rule line
+	sumT := str(consts(parseDir(filepath.Join(cli, "summary"))), "summaryTemplate", "")
+	sumPieces := []string{}
+	for _, re := range []string{
+		`\{\{formatDate \.Time\}\}([^\n]*)\n`,
+		`\{\{ formatValue \$total\.Positive \}\}(.*?)\{\{ \$total\.Name \}\}`,
+		`\{\{- end\}\}\n\{\{- end\}\}\n([^\n{]*)\n\{\{- if \.Elements`,
+		`\{\{ formatValue \$el\.Value \}\}(.*?)\{\{ \$el\.Name \}\}`,
+	} {
+		if m := regexp.MustCompile(re).FindStringSubmatch(sumT); m != nil {
+			sumPieces = append(sumPieces, m[1])
+		}
+	}
+	if len(sumPieces) != 4 {
+		fallback("the four literal pieces of summary.summaryTemplate")
+		sumPieces = []string{" :", " : ", "------------", " : "}
+	}
 	lFmt, lW, lHead := templateFacts(str(reg, "leftAlignedTemplate", ""), "register.leftAlignedTemplate",
 		[]string{"  %s  %s", "  %s    %s", "  %s %s = %s  %s"}, []int{},
 		"------------------------------------------------------- TOTAL --")
@@ -448,6 +465,8 @@ func main() {
 	w("def valueFormats : List (List UInt8) := %s", bytesLits(valFmt))
 	w("/-- stats_reporter.go: the seven lines -/")
 	w("def statsFormats : List (List UInt8) := %s", bytesLits(stFmt))
+	w("/-- summary.summaryTemplate: the text after the date, between value and name of a total row, the rule line, between value and name of a food row -/")
+	w("def summaryPieces : List (List UInt8) := %s", bytesLits(sumPieces))
 	w("def regLeftTotalsHead : List UInt8 := %s", bytesLit(lHead))
 	w("")
 	w("end Hrano.Facts")
